@@ -427,3 +427,19 @@ func ExecWriteStatement(db *sqlx.DB, table string, i int) {
 	}
 	_ = err // a failing statement changes nothing
 }
+
+// TempPath returns the path of a fresh (not yet existing) SQLite file, removed at the end of the replay entry.
+func TempPath() string {
+	f, err := os.CreateTemp("", "vhdb-init-*.sqlite")
+	if err != nil {
+		panic(vh.Diverged{Why: err.Error()})
+	}
+	name := f.Name()
+	f.Close()
+	os.Remove(name)
+	vh.Cleanup(func() { os.Remove(name) })
+	return name
+}
+
+// MigrationsDir is the migrations directory of the working tree.
+func MigrationsDir() string { return filepath.Join(repoDir(), "database/migrations") }
